@@ -509,6 +509,26 @@ class Parser:
 
         return target
 
+    def _comment_run_leads_child(self, child_indent: int) -> bool:
+        """Look past a run of comment lines: is the next line a child of the current container?
+
+        Called at the start of a comment line (at its INDENT token, or at the COMMENT token of a
+        line at column 0) that is indented less than the container's children. True when the first
+        line after the comment lines is indented at least ``child_indent``: the comment sits
+        between two children (typically a field commented out at the margin) and does not end
+        the container. False when a shallower line or the end of the document follows.
+        """
+        indent = 0
+        for token in self.tokens[self.pos :]:
+            if token.type == TokenType.INDENT:
+                indent = token.value
+            elif token.type == TokenType.NEWLINE:
+                indent = 0
+            elif token.type != TokenType.COMMENT:
+                # First token of the first line that is not a comment line
+                return bool(indent >= child_indent and token.type not in (TokenType.EOF, TokenType.ENVELOPE_END))
+        return False
+
     def parse_document(self) -> Document:
         """Parse a complete OCTAVE document."""
         doc = Document()
@@ -893,13 +913,19 @@ class Parser:
                 if self.current().type == TokenType.INDENT:
                     current_line_indent = self.current().value
                     if current_line_indent < child_indent:
-                        break  # Dedent, end of section
+                        # A shallower comment line between two children does not end the section
+                        if self.peek().type != TokenType.COMMENT or not self._comment_run_leads_child(child_indent):
+                            break  # Dedent, end of section
                     # Same or deeper level - consume and continue to parse
                     self.advance()
                     continue
 
                 # Issue #182: Collect comments as pending for next child
                 if self.current().type == TokenType.COMMENT:
+                    # A comment line shallower than the children that is not followed by another
+                    # child belongs to what comes after the section, like any other dedented line
+                    if current_line_indent < child_indent and not self._comment_run_leads_child(child_indent):
+                        break
                     pending_comments.append(self.current().value)
                     self.advance()
                     continue
@@ -1132,13 +1158,19 @@ class Parser:
                     if self.current().type == TokenType.INDENT:
                         current_line_indent = self.current().value
                         if current_line_indent < child_indent:
-                            break  # Dedent, end of block
+                            # A shallower comment line between two children does not end the block
+                            if self.peek().type != TokenType.COMMENT or not self._comment_run_leads_child(child_indent):
+                                break  # Dedent, end of block
                         # Same or deeper level - consume and continue to parse
                         self.advance()
                         continue
 
                     # Issue #182: Collect comments as pending for next child
                     if self.current().type == TokenType.COMMENT:
+                        # A comment line shallower than the children that is not followed by another
+                        # child belongs to what comes after the block, like any other dedented line
+                        if current_line_indent < child_indent and not self._comment_run_leads_child(child_indent):
+                            break
                         pending_comments.append(self.current().value)
                         self.advance()
                         continue
